@@ -57,6 +57,39 @@ def doc_total(S):
     return all(isinstance(e, Element) for e in r)
 
 
+def revalidate_total(i, v):
+    """the RESULT of an accepted validation (anonymous-object dicts, model instances, converted floats) is itself passed to
+    elements - the same one again and stricter ones, as in a validation pipeline: still only returns / rejections"""
+    from vf.common import (verdict, jcopy, Element, Array, Object, Property, Integer, Number, AnyOf, OneOf, AllOf, Not, parse_s)
+
+    M = Object.inline("M", properties={"a": Property(Number())})
+    firsts = [
+        Array(Element()),
+        parse_s({"items": {"properties": {"a": {"type": "number"}}}}),
+        Array(M),
+        parse_s({"items": {"anyOf": [{"type": "object", "title": "N", "properties": {"a": {"type": "integer"}}}, {"type": "null"}]}}),
+        Element(additionalItems=False, items=[Element(), Element(properties={"b": Property(Integer())})]),
+    ]
+    first = firsts[i]
+    ok, r = verdict(first, jcopy(v))
+    if not ok:
+        return True
+    seconds = [
+        first,
+        Element(uniqueItems=True),
+        Array(Element(), uniqueItems=True, contains=Element(const={"a": 1})),
+        Element(enum=[[{"a": 1}], [], [{}]], items=Element(enum=[{"a": 1}, {}, {"b": 0}])),
+        Array(M, uniqueItems=True),
+        Array(AnyOf(M, Integer()), minItems=1),
+        AllOf(Element(items=OneOf(Element(required=["a"]), Element(maxProperties=0))), Not(Element(const=[{"a": 0}]))),
+        Element(items=Element(propertyNames=Element(maxLength=1), dependencies={"a": ["b"]}, patternProperties={"^a": Number(multipleOf=2)}, minProperties=1)),
+    ]
+    for el2 in seconds:
+        if not total(el2, r):
+            return False
+    return True
+
+
 def nest(n, leaf):
     x = leaf
     for _ in range(n):
@@ -257,6 +290,9 @@ def harnesses(ctx) -> List[H]:
                  'return total(parse_s({"uniqueItems": True}), v) and total(parse_s({"uniqueItems": True}), [v, 1, v])', timeout=300, group="arrays"))
     hs.append(mk("c10_unique_unhashable_dicts", "w: List[Dict[str, int]]", ["len(w) <= 2", "all(len(d) <= 1 and all(k in ('a', 'b') for k in d) for d in w)"],
                  'return total(parse_s({"uniqueItems": True, "contains": {"required": ["a"]}}), w)', timeout=300, group="arrays"))
+    hs.append(mk("c10_revalidate_results", "i: int, w: List[Dict[str, int]]", ["0 <= i < 5", "len(w) <= 2", "all(len(d) <= 1 and all(k in ('a', 'b') for k in d) for d in w)"],
+                 "return revalidate_total(concretize_int(i, 0, 4), w)", timeout=400, group="validation",
+                 covers="two-step pipelines: the result of an accepted call (anonymous objects / model instances / floats inside arrays) validated again by the same and by 7 stricter elements (uniqueItems, const/enum, items/contains, compositions, object keywords)"))
     hs.append(mk("c10_deep_nesting", "n: int, x: Union[int, bool, None]", ["0 <= n <= 40"],
                  'return total(parse_s({"uniqueItems": True, "const": nest(3, x)}), nest(n, x)) and total(parse_s(nest_schema(n, {"type": "integer"})), nest(n, x)) and total(parse_s({"enum": [nest(n, 1)]}), nest(n, x))',
                  timeout=400, group="arrays", covers="nesting depth n <= 40 built from a symbolic n"))
